@@ -98,7 +98,7 @@ type inlineStats struct {
 	Rounds  int      `json:"rounds"`
 	// new struct types turned back into local variables (sroa.go)
 	Scalarised []string `json:"structs_scalarised,omitempty"`
-	Note    string   `json:"note,omitempty"`
+	Note       string   `json:"note,omitempty"`
 }
 
 type edit struct {
